@@ -173,6 +173,9 @@ impl Drop for Reading {
             state.is_reading -= 1;
 
             if !std::thread::panicking() {
+                // The access lasts until here: it is not ordered before what
+                // another thread acquires from a release the closure made.
+                execution.threads.active_causality_inc();
                 state.track_read(&execution.threads);
             }
         })
@@ -192,6 +195,8 @@ impl Drop for Writing {
             state.is_writing = false;
 
             if !std::thread::panicking() {
+                // See `Reading`
+                execution.threads.active_causality_inc();
                 state.track_write(&execution.threads);
             }
         })
